@@ -86,7 +86,7 @@ pub fn compile_json(
     let shape = json_shape::JsonShape::from_sources(&sources).map_err(std::io::Error::other)?;
     let target: PathBuf =
         std::env::var_os("OUT_DIR").map_or_else(|| std::env::current_dir().unwrap(), PathBuf::from);
-    let target = target.join(collection_name).with_extension("gen.shape.rs");
+    let target = target.join(format!("{collection_name}.gen.shape.rs"));
 
     let mut scope = Scope::new();
 
